@@ -1,4 +1,5 @@
 import Zlink.Proofs.Envelope
+import Zlink.Spec.Envelope
 import Zlink.Gen.Consts
 /-! # C05 — Call, reply and error envelopes follow the Varlink schema and round-trip
 
@@ -63,6 +64,148 @@ theorem C05_flags_hidden : ∀ (ms rest : Members) (o m u : Option Bool), splitF
             obtain ⟨h, _⟩ := h
             subst h
             simp [ih', h1, h2, h3]
+
+
+/-! ### every well-formed call is accepted (the completeness half of the `calldec` oracle, on the model) -/
+
+theorem splitFlags_some_of_bools : ∀ (ms : Members),
+    (∀ p ∈ ms, (p.1 = "oneway" ∨ p.1 = "more" ∨ p.1 = "upgrade") → ∃ b, p.2 = .bool b) →
+    ∃ q, splitFlags ms = some q := by
+  intro ms
+  induction ms with
+  | nil => intro _; exact ⟨_, rfl⟩
+  | cons p r ih =>
+    intro h
+    obtain ⟨k, v⟩ := p
+    obtain ⟨q, hq⟩ := ih (fun p hp hk => h p (by simp [hp]) hk)
+    obtain ⟨rest, o, m, u⟩ := q
+    simp only [splitFlags, hq]
+    by_cases h1 : k = "oneway"
+    · obtain ⟨b, hb⟩ := h (k, v) (by simp) (Or.inl h1)
+      simp only [] at hb; subst hb; rw [if_pos h1]; exact ⟨_, rfl⟩
+    · rw [if_neg h1]
+      by_cases h2 : k = "more"
+      · obtain ⟨b, hb⟩ := h (k, v) (by simp) (Or.inr (Or.inl h2))
+        simp only [] at hb; subst hb; rw [if_pos h2]; exact ⟨_, rfl⟩
+      · rw [if_neg h2]
+        by_cases h3 : k = "upgrade"
+        · obtain ⟨b, hb⟩ := h (k, v) (by simp) (Or.inr (Or.inr h3))
+          simp only [] at hb; subst hb; rw [if_pos h3]; exact ⟨_, rfl⟩
+        · rw [if_neg h3]; exact ⟨_, rfl⟩
+
+theorem lookup_filter_ne (k : String) (P : String → Bool) (hk : P k = true) : ∀ (ms : Members),
+    lookup k (ms.filter (fun p => P p.1)) = lookup k ms := by
+  intro ms
+  induction ms with
+  | nil => rfl
+  | cons p r ih =>
+    obtain ⟨k', v⟩ := p
+    by_cases hp : P k' = true
+    · simp only [List.filter_cons, hp, if_true, lookup, ih]
+    · have hne : k' ≠ k := by intro e; subst e; exact hp hk
+      simp only [List.filter_cons, hp, lookup, if_neg hne]
+      exact ih
+
+theorem count_filter_ne (k : String) (P : String → Bool) (hk : P k = true) (ms : Members) :
+    count k (ms.filter (fun p => P p.1)) = count k ms := by
+  unfold count
+  rw [List.filter_filter]
+  congr 1
+  apply List.filter_congr
+  intro p _
+  by_cases hp : p.1 = k
+  · simp [hp, hk]
+  · simp [hp]
+
+/-- **A well-formed call is accepted in every member order**: exactly one `method` member naming a variant of
+    the method type, boolean flag members anywhere, and `parameters` right for the variant — the fields as one
+    object; for a field-less variant absent or `null`, and `{}` too where every spelling of "no parameters"
+    must be recognised (`lenient`: the standard service's `GetInfo`) — is decoded, never refused.
+    (`SpecEnv.callMustDecode` is the predicate the driver evaluates on every frame the real `Call`
+    deserializer refuses.) -/
+theorem C05_wellformed_call_accepted (M : List Variant) (ms : Members)
+    (h : SpecEnv.callMustDecode M ms = true) : ∃ c, decodeCall M (.obj ms) = some c := by
+  unfold SpecEnv.callMustDecode at h
+  simp only [] at h
+  split at h
+  · cases h
+  · rename_i hcnt
+    split at h
+    · cases h
+    · rename_i hfl
+      simp only [Bool.not_eq_true, Bool.or_eq_false_iff, bne_eq_false_iff_eq,
+        decide_eq_false_iff_not, Nat.not_lt] at hcnt
+      simp only [Bool.not_eq_true, Bool.not_eq_false', Bool.and_eq_true, List.all_eq_true] at hfl
+      obtain ⟨⟨ho, hm⟩, hu⟩ := hfl
+      have hbools : ∀ p ∈ ms, (p.1 = "oneway" ∨ p.1 = "more" ∨ p.1 = "upgrade") → ∃ b, p.2 = .bool b := by
+        intro p hp hk
+        have key : ∀ k, p.1 = k →
+            (∀ x ∈ ms.filter (fun q => decide (q.1 = k)), (match x.2 with | J.bool _ => true | _ => false) = true) →
+            ∃ b, p.2 = .bool b := by
+          intro k hk hall
+          have := hall p (by simp [hp, hk])
+          cases hv : p.2 with
+          | bool b => exact ⟨b, rfl⟩
+          | _ => simp [hv] at this
+        rcases hk with hk | hk | hk
+        · exact key _ hk ho
+        · exact key _ hk hm
+        · exact key _ hk hu
+      obtain ⟨q, hq⟩ := splitFlags_some_of_bools ms hbools
+      obtain ⟨rest, o, m, u⟩ := q
+      have hrest := C05_flags_hidden ms rest o m u hq
+      let P : String → Bool := fun k => decide (k ≠ "oneway" ∧ k ≠ "more" ∧ k ≠ "upgrade")
+      have hrest' : rest = ms.filter (fun p => P p.1) := by
+        rw [hrest]
+      have hlm : lookup "method" rest = lookup "method" ms := by rw [hrest']; exact lookup_filter_ne _ P (by decide) ms
+      have hlp : lookup "parameters" rest = lookup "parameters" ms := by rw [hrest']; exact lookup_filter_ne _ P (by decide) ms
+      have hcm : count "method" rest = count "method" ms := by rw [hrest']; exact count_filter_ne _ P (by decide) ms
+      have hcp : count "parameters" rest = count "parameters" ms := by rw [hrest']; exact count_filter_ne _ P (by decide) ms
+      simp only [decodeCall, hq, decodeAdjM, hlm, hlp, hcm, hcp]
+      have hc : ¬ (count "method" ms > 1 ∨ count "parameters" ms > 1) := by omega
+      simp only [gt_iff_lt, Bool.or_eq_true, decide_eq_true_eq, hc, if_false]
+      cases hmeth : lookup "method" ms with
+      | none => simp [hmeth] at h
+      | some jm =>
+        cases jm with
+        | str n e =>
+          simp only [hmeth] at h ⊢
+          cases hfv : findVariant M n with
+          | none => simp [hfv] at h
+          | some iv =>
+            obtain ⟨i, v⟩ := iv
+            simp only [hfv] at h ⊢
+            cases hvf : v.fields with
+            | none =>
+              simp only [hvf] at h ⊢
+              cases hpar : lookup "parameters" ms with
+              | none => exact ⟨_, rfl⟩
+              | some jp =>
+                simp only [hpar] at h ⊢
+                cases jp with
+                | null => exact ⟨_, rfl⟩
+                | obj cm =>
+                  cases cm with
+                  | nil => simp only [] at h; simp only [h, if_true]; exact ⟨_, rfl⟩
+                  | cons _ _ => simp at h
+                | _ => simp at h
+            | some fs =>
+              simp only [hvf] at h ⊢
+              cases hpar : lookup "parameters" ms with
+              | none => simp [hpar] at h
+              | some jp =>
+                simp only [hpar] at h ⊢
+                cases jp with
+                | obj cm =>
+                  simp only [] at h
+                  obtain ⟨xs, hxs⟩ := Option.isSome_iff_exists.mp h
+                  simp only [hxs, Option.map_some]; exact ⟨_, rfl⟩
+                | _ => simp at h
+        | _ => simp [hmeth] at h
+
+/-- non-vacuity: `{"parameters":null,"oneway":true,"method":"org.varlink.service.GetInfo"}` is a well-formed call -/
+example : SpecEnv.callMustDecode [{ name := "org.varlink.service.GetInfo", fields := none, lenient := true }]
+    [("parameters", .null), ("oneway", .bool true), ("method", .str "org.varlink.service.GetInfo" false)] = true := by decide
 
 /-- **Call round trip**: for every method variant with distinct field names, every well-typed
     argument list and all 8 flag combinations, decoding the encoded call yields the same call. -/
